@@ -370,6 +370,9 @@ func (p *Proxy) handleConnectRequest(ctx *Context, req *http.Request, session *S
 			}
 			brw.Writer.Reset(nconn)
 			brw.Reader.Reset(nconn)
+			// From here on the session's connection is the decrypted one: that
+			// is what a hijacker must be handed.
+			session.setConn(nconn, brw)
 			return p.handle(ctx, nconn, brw)
 		}
 
